@@ -1,7 +1,7 @@
 /-
 C03 — support mappings return a point of the shape that is extreme along the query direction.
 
-Property theorems only (helper lemmas: D3/Proofs/Support{Sets,Closed,Hull,Mesh,Collider}.lean).
+Property theorems only (helper lemmas: D3/Proofs/Support{Sets,Closed,Hull,Mesh,MeshBuild,Collider}.lean).
 All statements are about the executable model `D3.Support.*` of D3/Model/Support.lean at `α := ℝ`
 — the same polymorphic terms the driver runs at `Float`/`Rat` against the implementation.
 
@@ -18,8 +18,8 @@ branches return a point of the set) nor an orthonormal pose.
 
 Nothing in this file is partial. What the theorems do not cover is listed in
 harness/props/c03.py (`PARTIAL`): `Unimodal` is an explicit hypothesis of the global statement
-for meshes (not derived from convexity of the mesh), `MeshData.build ⇒ wfCheck` is evaluated
-by the driver on every mesh instead of being proved, and floating-point rounding is not modelled.
+for meshes (not derived from convexity of the mesh; its decidable form `unimodalCheck` is
+evaluated by the driver on the harness's meshes), and floating-point rounding is not modelled.
 -/
 import D3.Proofs.SupportCollider
 
@@ -224,6 +224,29 @@ theorem tetra_valid0 : Valid tetra 0 := ⟨by decide, [1, 2, 3], rfl⟩
 the driver evaluates on every mesh of the harness) satisfies the precondition `MeshWF`: every
 shortcut vertex and every listed neighbour is a vertex index that occurs in a triangle. -/
 theorem meshWF_of_check (m : MeshData ℝ) (h : m.wfCheck = true) : MeshWF m := wfCheck_sound m h
+
+/-- **Construction.** `MeshHillClimbingSupportFunction.__init__` (model `MeshData.build`: the
+`connections` dict, the six arg-max/arg-min shortcuts, `first_idx = np.min(triangles)`) yields
+well-formed data and a valid start index whenever the triangle indices are vertex indices and
+every shortcut vertex occurs in some triangle (true when every vertex is used; this is the
+KeyError precondition, see `hillClimb_keyError`). -/
+theorem mesh_build_wf (verts : Array V) (tris : List (Nat × Nat × Nat)) (m : MeshData ℝ) (fi : Nat)
+    (h : MeshData.build verts tris = .ok (m, fi))
+    (hidx : ∀ t ∈ tris, ∀ i, TriVert t i → i < verts.size)
+    (hsc : ∀ s ∈ m.shortcuts, ∃ t ∈ tris, TriVert t s) :
+    MeshWF m ∧ Valid m fi ∧ m.verts = verts :=
+  build_wf verts tris m fi h hidx hsc
+
+example : ∃ m fi, MeshData.build (#[⟨0, 0, 0⟩, ⟨1, 0, 0⟩, ⟨0, 1, 0⟩] : Array V) [(0, 1, 2)] = .ok (m, fi) ∧
+    MeshWF m ∧ Valid m fi := by
+  have hb : MeshData.build (#[⟨0, 0, 0⟩, ⟨1, 0, 0⟩, ⟨0, 1, 0⟩] : Array V) [(0, 1, 2)]
+      = .ok (⟨#[⟨0, 0, 0⟩, ⟨1, 0, 0⟩, ⟨0, 1, 0⟩], [(0, [1, 2]), (1, [0, 2]), (2, [0, 1])],
+        [1, 2, 0, 0, 0, 0]⟩, 0) := by
+    simp [MeshData.build, argBest0, argBest, connAddTriangle, connEnsure, connUpdate, setUpdate,
+      List.lookup]
+  refine ⟨_, _, hb, ?_⟩
+  have := mesh_build_wf _ _ _ _ hb (by simp [TriVert]) (by simp [TriVert])
+  exact ⟨this.1, this.2.1⟩
 
 /-- **Termination and local optimality, for every start index.** On well-formed mesh data and
 from any start vertex that occurs in a triangle, `hill_climb_mesh_extreme` (model fuel = number
